@@ -657,9 +657,18 @@ def rule_segment_completion(chk, prog):
     A = lambda s_: ("atom", s_)
     want = ("or", A("(vertLine.pos > horiLine.finish)"),
             ("and", A("(vertLine.pos == horiLine.finish)"), ("and", A("(vertLine.begin <= horiLine.pos)"), A("(vertLine.finish >= horiLine.pos)"))))
+    from ..rules.guards import map_atoms
+    import re as _re
+    vname = fn.params[2]["name"] if len(fn.params) >= 3 else "vertLine"
+    hd = [d for d in fn.nodes() if d.get("k") == "VarDecl" and "LineSegment &" in str(d.get("t", "")) and d.get("init") is not None]
+    hname = hd[0].get("name") if hd else "horiLine"
+
+    def canon(a):
+        a = _re.sub(r"\b%s\b" % _re.escape(vname), "vertLine", a)
+        return _re.sub(r"\b%s\b" % _re.escape(hname), "horiLine", a)
     for c in ers:
         r.count()
-        pc = path_condition(fn, c, inline=True, early=True)
+        pc = map_atoms(path_condition(fn, c, inline=True, early=True), canon)
         bad = None
         if not entails(pc, want):
             bad = "the segment is erased under %s: at its end x it may be finished by a vertical segment that does not reach its y, before the one " \
